@@ -99,8 +99,10 @@ func codecRegexp(f *ast.File) (matched, error) {
 }
 
 // codecSplitN: the way validNaddr cuts its argument:
-//   elems := strings.Split(naddr, ":")      -> g_naddr_split_n = -1  (all parts)
-//   elems := strings.SplitN(naddr, ":", n)  -> g_naddr_split_n = n
+//
+//	elems := strings.Split(naddr, ":")      -> g_naddr_split_n = -1  (all parts)
+//	elems := strings.SplitN(naddr, ":", n)  -> g_naddr_split_n = n
+//
 // and the separator as g_naddr_sep.
 func codecSplitN(f *ast.File) ([]matched, error) {
 	const nm = "g_naddr_split_n"
@@ -202,6 +204,16 @@ func codecCase(f *ast.File, a anchor) (m matched, err error) {
 	return matched{a.Name, a.File, a.Recv + "." + a.Func, fset.Position(hit.Pos()).Line, pr(hit), coq}, nil
 }
 
+// codecLost: the anchor is gone; keep the model compiling with its last known form
+func codecLost(name string, err error) (matched, bool) {
+	def, ok := codecDefaults[name]
+	if !ok {
+		return matched{}, false
+	}
+	return matched{name, "message.go", "ANCHOR LOST", 0,
+		"TIE BROKEN (" + strings.ReplaceAll(err.Error(), "*)", "* )") + "): last known form kept so that the correspondence run can proceed", def}, true
+}
+
 func codecExtras(repo string, files map[string]*ast.File) (map[string][]matched, []string) {
 	var out []matched
 	var errs []string
@@ -222,18 +234,29 @@ func codecExtras(repo string, files map[string]*ast.File) (map[string][]matched,
 		m, err := codecConst(msg, c)
 		if err != nil {
 			errs = append(errs, err.Error())
-			continue
+			var ok bool
+			if m, ok = codecLost("g_"+c, err); !ok {
+				continue
+			}
 		}
 		out = append(out, m)
 		constSyms[c] = s("g_" + c)
 	}
 	if m, err := codecRegexp(msg); err != nil {
 		errs = append(errs, err.Error())
+		if m, ok := codecLost("g_client_msg_regexp", err); ok {
+			out = append(out, m)
+		}
 	} else {
 		out = append(out, m)
 	}
 	if ms, err := codecSplitN(msg); err != nil {
 		errs = append(errs, err.Error())
+		for _, n := range []string{"g_naddr_split_n", "g_naddr_sep"} {
+			if m, ok := codecLost(n, err); ok {
+				out = append(out, m)
+			}
+		}
 	} else {
 		out = append(out, ms...)
 	}
@@ -318,7 +341,10 @@ func codecExtras(repo string, files map[string]*ast.File) (map[string][]matched,
 		m, err := translate(repo, a, files)
 		if err != nil {
 			errs = append(errs, err.Error())
-			continue
+			var ok bool
+			if m, ok = codecLost(a.Name, err); !ok {
+				continue
+			}
 		}
 		out = append(out, m)
 	}
@@ -339,7 +365,10 @@ func codecExtras(repo string, files map[string]*ast.File) (map[string][]matched,
 		m, err := codecCase(msg, a)
 		if err != nil {
 			errs = append(errs, err.Error())
-			continue
+			var ok bool
+			if m, ok = codecLost(a.Name, err); !ok {
+				continue
+			}
 		}
 		out = append(out, m)
 	}
